@@ -6,7 +6,7 @@ enumerated from the IR and a site without a rule is an analysis-broken exit.
 """
 from .. import terms, nf
 from .. import catalogue as cat
-from ..ast import strip, flat_stmts, calls, nodes, is_param, is_local, is_this_member, full_container_loop, assigned_in, show, int_value
+from ..ast import strip, flat_stmts, calls, nodes, is_param, is_local, is_this_member, full_container_loop, assigned_in, show, int_value, whole_container_traversal
 from ..ir import walk
 from ..report import AnalysisBroken
 from . import c17
@@ -23,16 +23,15 @@ def destructor_releases(d):
     if d is None:
         return False
     verdict = None
-    for l in nodes(d.body, 'for'):
-        it = full_container_loop(l, lambda o: is_this_member(o, '_master_map'))
-        if it is not None and not assigned_in(l['body'], it):
-            dl = [n for n in nodes(l['body'], 'delete')]
-            early = [n for n in walk(l['body']) if n.get('k') in ('return', 'break', 'continue')]
-            if len(dl) == 1 and not early:
-                t = strip(dl[0]['e'], casts=True)
-                if t.get('k') == 'member' and t['n'] == 'second':
-                    return True
-            verdict = False
+    full, l, it = whole_container_traversal(d.body, lambda o: o is not None and is_this_member(o, '_master_map'))
+    if full is not None:
+        dl = [n for n in nodes(l['body'], 'delete')]
+        if full and len(dl) == 1:
+            t = strip(dl[0]['e'], casts=True)
+            tb = strip(t['base'], casts=True) if t.get('k') == 'member' and t['n'] == 'second' else {}
+            if tb.get('k') == 'call' and tb.get('n') in ('operator->', 'operator*') and is_local(tb['args'][0], it, casts=True):
+                return True
+        verdict = False
     for l in nodes(d.body, 'while'):
         c = strip(l.get('c'), casts=True)
         if not (c.get('k') == 'un' and c['op'] == '!'):
